@@ -18,6 +18,10 @@ from .. import meshspace as ms
 from ..topo import REF
 
 ID = 'C09'
+# sub-checks added after the seeded-change waves (DESIGN.md sections 5 and 6)
+EXTENSIONS = [
+    'block-by-block re-evaluation on the same element object (consecutive same-x / same-y blocks); sort_t=False triangle variant',
+]
 LEVEL = 'exploration'
 TECHNIQUE = "exhaustive enumeration (element catalogue x local index x lattice x cell geometry) with a finite-difference oracle exact for the polynomial degrees involved"
 LEVEL_TEXT = ("Every exported element (plus p-parametrised ones and vector / DG / composite wrappers) x EVERY local basis function "
